@@ -328,14 +328,10 @@ func (h *HandlerSet) HandleDetectClones(ctx context.Context, request mcp.CallToo
 		req.MinLines = cfg.Clones.Analysis.MinLines
 		req.MinNodes = cfg.Clones.Analysis.MinNodes
 		req.GroupClones = domain.BoolValue(cfg.Clones.Output.GroupClones, true)
-		req.Recursive = domain.BoolValue(cfg.Clones.Input.Recursive, true)
-		if len(cfg.Clones.Input.IncludePatterns) > 0 {
-			req.IncludePatterns = cfg.Clones.Input.IncludePatterns
-		}
-		if len(cfg.Clones.Input.ExcludePatterns) > 0 {
-			req.ExcludePatterns = cfg.Clones.Input.ExcludePatterns
-		}
-	} else if cfg != nil {
+	}
+	// The files are selected by the [analysis] section, as `pyscn analyze`
+	// and the other tools do
+	if cfg != nil {
 		req.Recursive = cfg.Analysis.Recursive
 		if len(cfg.Analysis.IncludePatterns) > 0 {
 			req.IncludePatterns = cfg.Analysis.IncludePatterns
